@@ -923,6 +923,7 @@ static int cmd_check(const std::string &property, Tier tier, uint64_t verif_seed
 	bool nondeterminism = false;
 	bool timed_out = false;
 	bool stopping = false;
+	double stop_after_first = getenv("JWTSIM_STOP_AFTER_FIRST") ? atof(getenv("JWTSIM_STOP_AFTER_FIRST")) : 0, first_found_at = 0;
 	std::vector<uint64_t> leak_candidates;
 
 	auto spawn = [&](size_t w, uint64_t first) {
@@ -1060,6 +1061,20 @@ static int cmd_check(const std::string &property, Tier tier, uint64_t verif_seed
 		int pr = poll(pfds.data(), pfds.size(), 1000);
 		if (pr < 0 && errno != EINTR)
 			break;
+		// sensitivity self-tests only (JWTSIM_STOP_AFTER_FIRST=<seconds>): once something was found, a few more seconds of
+		// exploration and then straight to the gate - the question there is whether the check fails, not what else it covers
+		if (stop_after_first > 0 && !found.empty() && !stopping) {
+			if (first_found_at == 0)
+				first_found_at = wall_now();
+			else if (wall_now() > first_found_at + stop_after_first) {
+				timed_out = true;
+				stopping = true;
+				deadline = 0;
+				for (auto &o : slots)
+					if (o.pid > 0 && o.fd >= 0)
+						kill(o.pid, SIGKILL);
+			}
+		}
 		for (size_t k = 0; k < pfds.size(); k++) {
 			if (!(pfds[k].revents & (POLLIN | POLLHUP)))
 				continue;
